@@ -14,9 +14,13 @@ THEOREMS = ["QExPy.C07_poly_model", "QExPy.C07_lin", "QExPy.C07_quad", "QExPy.C0
             "QExPy.C01_quadratic_form", "QExPy.C03_diff_correct"]
 RULE = ("the C06 fits on the whole data set (every pre-set model, polynomial degrees 1-5, three user "
         "models, every sigma pattern incl. sigma_y with exact zeros, every data-passing form, 60 % "
-        "rescaled to other units by 1e-12..1e12, nearly uncorrelated parameters), 4 evaluation "
-        "points each, evaluated "
-        "as scalars, as a list and as an array; fit_function value/uncertainty, residuals (value "
+        "rescaled to other units by 1e-12..1e12, nearly uncorrelated parameters, offset abscissae, "
+        "closed-form fits with parguess, fits made through Plot.fit), 4 evaluation points each plus "
+        "the smallest and largest abscissa of the data, evaluated as scalars (float, numpy float, "
+        "int), as a list and as an array, BEFORE AND AFTER a history (a returned value switched to "
+        "Monte Carlo and read, the result drawn on a plot and saved, the global method switched, "
+        "re-reads) after which chi-squared, residuals, parameters, correlations and the printed "
+        "result must also read as before; fit_function value/uncertainty, residuals (value "
         "and uncertainty), chi-squared, registered correlations and the matrix parsed from "
         "str(result) (3 decimals and 17 digits) vs the Lean FitResult model run on the implementation's own parameters and "
         "covariance (tolerance: FB running error bound); non-trivial = >= 2 parameters and a "
@@ -67,9 +71,37 @@ def gen_cases(ctx, n):
     # (almost) uncorrelated parameters: small correlations are registered like any other
     for k in range(4):
         cases.append(G.gen_centred(ctx.rng, units=None if k < 2 else ext[k]))
+    # fits as in C06's newer classes: offset abscissae, closed-form fits called with parguess
+    from props import c06 as C6
+    for k, fam in enumerate(G.OFFSET_FAMILIES):
+        cases.append(C6.offset_case(ctx.rng, family=fam, want_range=False))
+    for k, (fam, d) in enumerate((("linear", None), ("quadratic", None), ("polynomial", 3),
+                                  ("polynomial", 5))):
+        cases.append(G.gen_case(ctx.rng, family=fam, degree=d, guess=True, want_range=False,
+                                sx=("none", "common")[k % 2]))
+    n0 = len(G.corpus(ID))
+    # HISTORIES between two rounds of evaluating fit_function (every model family and every form
+    # gets one with the result drawn on a plot; the others get one without a plot half of the time)
+    k = 0
+    for c in cases[n0:]:
+        if c.get("scale") and max(c["scale"]) / min(c["scale"]) > 1e12:
+            continue
+        c["hist"] = G.gen_hist(ctx.rng, plot=(k % 2 == 0))
+        c["hist_first"] = k % 3 == 0
+        k += 1
+    for form in ("plot.fit", "plot.fit", "plot.fit", "xyds", "lists", "marrays"):
+        for fam in ("linear", "gaussian", "custom:sine"):
+            c = G.gen_case(ctx.rng, family=fam, form=form, want_range=False, noise_free=False)
+            c["hist"] = G.gen_hist(ctx.rng, plot=True)
+            c["hist_first"] = ctx.rng.random() < 0.4
+            cases.append(c)
+    nforced = len(cases)
     while len(cases) < n:
         if ctx.rng.random() < 0.03:
             cases.append(G.gen_centred(ctx.rng))
+            continue
+        if ctx.rng.random() < 0.05:
+            cases.append(C6.offset_case(ctx.rng, want_range=False))
             continue
         if ctx.rng.random() < 0.06:
             cases.append(G.gen_case(ctx.rng, family=ctx.rng.choice(fams[3:] + ("custom:growth",)),
@@ -80,11 +112,15 @@ def gen_cases(ctx, n):
             u = (ctx.rng.choice(G.SCALES), ctx.rng.choice(G.SCALES))
         cases.append(G.gen_case(ctx.rng, want_range=(ctx.rng.random() < 0.1), noise_free=False,
                                 units=u))
+    for c in cases[nforced:]:
+        if ctx.rng.random() < 0.5:
+            c["hist"] = G.gen_hist(ctx.rng, plot=(ctx.rng.random() < 0.15))
+            c["hist_first"] = ctx.rng.random() < 0.3
     return cases
 
 
 def correspond(ctx):
-    return X.run_c07(ctx, gen_cases(ctx, ctx.n(120, 20000)))
+    return X.run_c07(ctx, gen_cases(ctx, ctx.n(140, 20000)))
 
 
 def search(ctx, broken):
